@@ -255,3 +255,19 @@ Proof.
     destruct Hop as [-> | ->]; cbn in Hc |- *; try reflexivity.
   all: destruct (Nat.eqb e e0) eqn:Ee; cbn in Hc |- *; try congruence; reflexivity.
 Qed.
+
+(** * C++ lengths are unsigned *)
+
+(** [len(s) + 1 > len(t) - 1] for [s = "abc"], [t = ""]: 4 > -1 in Python, but
+    [t.size() - 1] is 2^64 - 1 in C++. Likewise [-2 <= len(s) - 1]. *)
+Lemma cpp_length_arithmetic_refuted :
+  exists op l r, z_cmp op l r <> cpp_len_cmp op l r.
+Proof. exists GT, (3 + 1), (0 - 1). vm_compute. discriminate. Qed.
+
+Lemma cpp_len_cmp_sound : forall op l r,
+  0 <= l < 18446744073709551616 -> 0 <= r < 18446744073709551616 ->
+  cpp_len_cmp op l r = z_cmp op l r.
+Proof.
+  intros op l r Hl Hr. unfold cpp_len_cmp, wrap64.
+  rewrite (Z.mod_small l) by lia. rewrite (Z.mod_small r) by lia. reflexivity.
+Qed.
